@@ -260,4 +260,136 @@ theorem audit_panel (e : PExpr) (n : String) : n ∈ checkPanelTrajectory e ↔ 
 example : checkPanelTrajectory (.bin "+" (.un "log" (.traj (.var "P"))) (.bin "*" (.var "X") (.beta "b")))
     = ["X"] := by decide
 
+/-! ### Monte-Carlo placement rule -/
+
+/-- `a` is the argument of some `MonteCarlo` node of the formula (at any depth, also below a
+trajectory operator) -/
+inductive McArg : PExpr → PExpr → Prop where
+  | here (c) : McArg (.mc c) c
+  | mc (c a) : McArg c a → McArg (.mc c) a
+  | un (op e a) : McArg e a → McArg (.un op e) a
+  | binL (op l r a) : McArg l a → McArg (.bin op l r) a
+  | binR (op l r a) : McArg r a → McArg (.bin op l r) a
+  | traj (e a) : McArg e a → McArg (.traj e) a
+
+/-- **`Expression.audit` on panel data lists no error iff every Monte-Carlo integral of the formula
+encloses a trajectory operator** (so that the integral is taken over the product of the rows of
+the individual: one draw shared by all its rows), contains a draw and no other integral. -/
+theorem audit_mc (e : PExpr) :
+    auditErrors e = 0 ↔
+      ∀ a, McArg e a → hasTraj a = true ∧ hasDraws a = true ∧ hasMC a = false := by
+  induction e with
+  | num v => simp only [auditErrors, true_iff]; intro a h; cases h
+  | beta b => simp only [auditErrors, true_iff]; intro a h; cases h
+  | var m => simp only [auditErrors, true_iff]; intro a h; cases h
+  | draws d => simp only [auditErrors, true_iff]; intro a h; cases h
+  | un op e ih =>
+    simp only [auditErrors]
+    rw [ih]
+    exact ⟨fun h a ha => by cases ha with | un _ _ _ h' => exact h a h',
+      fun h a ha => h a (.un _ _ _ ha)⟩
+  | bin op l r ihl ihr =>
+    simp only [auditErrors, Nat.add_eq_zero_iff]
+    rw [ihl, ihr]
+    constructor
+    · rintro ⟨h1, h2⟩ a ha
+      cases ha with
+      | binL _ _ _ _ h => exact h1 a h
+      | binR _ _ _ _ h => exact h2 a h
+    · intro h
+      exact ⟨fun a ha => h a (.binL _ _ _ _ ha), fun a ha => h a (.binR _ _ _ _ ha)⟩
+  | traj e ih =>
+    simp only [auditErrors]
+    rw [ih]
+    exact ⟨fun h a ha => by cases ha with | traj _ _ h' => exact h a h',
+      fun h a ha => h a (.traj _ _ ha)⟩
+  | mc e ih =>
+    simp only [auditErrors, Nat.add_eq_zero_iff, ite01, ite10]
+    rw [ih]
+    constructor
+    · rintro ⟨⟨⟨h0, h1⟩, h2⟩, h3⟩ a ha
+      cases ha with
+      | here => exact ⟨h1, h2, h3⟩
+      | mc _ _ h => exact h0 a h
+    · intro h
+      obtain ⟨h1, h2, h3⟩ := h e (.here e)
+      exact ⟨⟨⟨fun a ha => h a (.mc _ _ ha), h1⟩, h2⟩, h3⟩
+
+/-- a formula accepted by `BIOGEME(database, formula)` on panel data has every variable below a
+trajectory operator and every Monte-Carlo integral around one -/
+theorem accepted_formula (e : PExpr) (h : initAccepts e = true) :
+    (∀ n, ¬ VarOutside e n) ∧ (∀ a, McArg e a → hasTraj a = true) := by
+  unfold initAccepts at h
+  simp only [Bool.and_eq_true, List.isEmpty_iff, beq_iff_eq] at h
+  obtain ⟨⟨h1, _⟩, h3⟩ := h
+  refine ⟨fun n hn => ?_, fun a ha => ((audit_mc e).1 h3 a ha).1⟩
+  have := (audit_panel e n).2 hn
+  rw [h1] at this
+  exact List.not_mem_nil this
+
+/-- the integral around the trajectory is accepted; an integral taken row by row inside the
+trajectory is refused even when its integrand has no variable; so is an integral next to it -/
+example : initAccepts (.un "log" (.mc (.traj (.bin "*" (.var "P") (.un "exp" (.draws "xi")))))) = true := by decide
+example : initAccepts (.un "log" (.traj (.bin "*" (.var "P") (.mc (.un "exp" (.draws "xi")))))) = false := by decide
+example : initAccepts (.bin "*" (.traj (.var "P")) (.mc (.draws "xi"))) = false := by decide
+
+/-! ### the table changes between two evaluations -/
+
+/-- **The map is rebuilt before each evaluation**: whatever map the database holds (built for an
+earlier table), an evaluation reports the values of the *current* table, and leaves the map of the
+current table behind. -/
+theorem evaluate_current_table {ρ : Type} (outer : ℝ → ℝ) (g : ρ → ℝ) (dflt : ρ) (st : DbState ρ) :
+    (st.evaluate outer g dflt).2 = tableValues outer g dflt st.table ∧
+    (st.evaluate outer g dflt).1.map = panelMap ((sortTable st.table).map (·.1)) :=
+  ⟨rfl, rfl⟩
+
+/-- after the table was replaced by `t` (rows appended, dropped, relabelled, reordered - any `t`),
+the next evaluation returns, per individual of `t`, the product over exactly the rows of `t` that
+carry its id -/
+theorem eval_after_edit {ρ : Type} (outer : ℝ → ℝ) (g : ρ → ℝ) (dflt : ρ) (st : DbState ρ)
+    (t : List (Int × ρ)) (hpos : ∀ p ∈ t, 0 < g p.2) :
+    ((st.setTable t).evaluate outer g dflt).2 =
+      ((sortTable t).map (·.1)).eraseDups.map fun a =>
+        (a, outer (((t.filter fun p => decide (p.1 = a)).map fun p => g p.2).prod)) := by
+  rw [(evaluate_current_table outer g dflt (st.setTable t)).1]
+  exact table_values outer g dflt t hpos
+
+/-- **over histories**: in a sequence table₁, evaluate, table₂, evaluate, … the k-th evaluation is
+that of the k-th table alone; nothing of the earlier tables or maps survives -/
+theorem history_values {ρ : Type} (outer : ℝ → ℝ) (g : ρ → ℝ) (dflt : ρ) (st : DbState ρ)
+    (ts : List (List (Int × ρ))) :
+    DbState.history outer g dflt st ts =
+      ts.map fun t => (panelMap ((sortTable t).map (·.1)), tableValues outer g dflt t) := by
+  induction ts generalizing st with
+  | nil => rfl
+  | cons t ts ih =>
+    simp only [DbState.history, List.map_cons]
+    rw [ih]
+    rfl
+
+theorem history_free {ρ : Type} (outer : ℝ → ℝ) (g : ρ → ℝ) (dflt : ρ) (st st' : DbState ρ)
+    (ts : List (List (Int × ρ))) :
+    DbState.history outer g dflt st ts = DbState.history outer g dflt st' ts := by
+  rw [history_values, history_values]
+
+/-- the map a database holds after `setTable` is the old one: handing it to the engine without
+rebuilding it would not describe the table (two rows appended to the last individual) -/
+example :
+    let st : DbState Unit := ⟨[(7, ()), (7, ()), (12, ())], panelMap [7, 7, 12]⟩
+    (st.setTable [(7, ()), (7, ()), (12, ()), (12, ()), (12, ())]).map = [⟨7, 0, 1⟩, ⟨12, 2, 2⟩] ∧
+    panelMap [7, 7, 12, 12, 12] = [⟨7, 0, 1⟩, ⟨12, 2, 4⟩] := by
+  decide
+
+/-! ### scaled quantities -/
+
+/-- **the sample size by which the scaled log likelihood (and its derivatives) are divided is the
+number of individuals**, not the number of rows -/
+theorem scaled_by_individuals (ids : List Int) (v : ℝ) :
+    scaledBy (sortIds ids) v = v / (ids.toFinset.card : ℝ) := by
+  unfold scaledBy
+  rw [(sample_size ids).1]
+  simp only [NumR.div_real, NumR.nat_real]
+
+example : sampleSize [-3, 7, 7, 7, 12, 12] = 3 ∧ [-3, 7, 7, 7, 12, 12].length = 6 := by decide
+
 end C09
